@@ -587,6 +587,64 @@ func violate(out *hx.Out, desc string) {
 	}
 }
 
+// malformed stream: inputs the dispatcher must reject before any method runs (no store may change, nobody's portfolio moves)
+func phaseMalformed(t *testing.T, e *env, rng *rand.Rand, out *hx.Out) {
+	app := e.s.App
+	victim := e.victim.Address()
+	warm := []common.Address{e.staking, e.cross}
+	spenders := []common.Address{e.x, e.y}
+	out.Reset()
+	for _, to := range []common.Address{e.staking, e.cross} {
+		ids := methodIds(to, e.staking)
+		valid, _ := hex.DecodeString(ids[rng.Intn(len(ids))])
+		junk := make([]byte, 36)
+		rng.Read(junk)
+		inputs := []struct {
+			name string
+			data []byte
+		}{
+			{"empty", nil}, {"short1", []byte{valid[0]}}, {"short3", valid[:3]}, {"exactly4", valid},
+			{"unknown-id", append([]byte{0xde, 0xad, 0xbe, 0xef}, junk[:32]...)}, {"unknown-id-long", append([]byte{0x00, 0x00, 0x00, 0x01}, junk...)},
+		}
+		for _, in := range inputs {
+			for _, kind := range []evmx.Kind{evmx.KCall, evmx.KStatic, evmx.KDelegate, evmx.KCallCode} {
+				cctx, _ := e.s.Ctx.CacheContext()
+				nd := &evmx.Node{Op: "pre", ID: 1, Kind: kind, To: to, Data: in.data, Swallow: true}
+				if err := evmx.InstallTree(cctx, app, e.x, []*evmx.Node{nd}); err != nil {
+					t.Fatal(err)
+				}
+				before := e.dump(cctx)
+				pv := e.portfolioOf(cctx, victim, spenders)
+				tx, err := evmx.SignedTx(cctx, app, e.signer, e.x, nil, nil, 3_000_000, warm)
+				if err != nil {
+					t.Fatal(err)
+				}
+				tr := evmx.NewTracer()
+				var res *evmtypes.MsgEthereumTxResponse
+				desc := fmt.Sprintf("malformed input %s (%d bytes) kind=%s precompile=%s", in.name, len(in.data), kind, to.Hex())
+				if pr := hx.Try(func() error { res, err = evmx.SendTraced(cctx, app, tx, tr); return nil }); pr != "ok" {
+					violate(out, "precompile call panicked ("+pr+"): "+desc)
+					continue
+				}
+				if err != nil || res.Failed() || len(tr.Frames) < 2 {
+					t.Fatalf("unexpected outer failure: %v %v", err, res)
+				}
+				obs := "ran"
+				if et := tr.Frames[1].Err; strings.Contains(et, "invalid input") || strings.Contains(et, "unknown method") {
+					obs = "unknown-method"
+				}
+				out.Emit(fmt.Sprintf("disp %s malformed:%s %s 0 %s -", kind, in.name, hx.Hex(in.data[:min(len(in.data), 4)]), to.Hex()), obs)
+				out.Count("malformed:" + in.name + ":" + obs)
+				out.Nontrivial("malformed|" + in.name + "|" + kind.String() + "|" + obs)
+				if changed := hx.DiffDump(before, e.dump(cctx)); len(changed) > 0 {
+					violate(out, "malformed precompile input changed Cosmos stores "+fmt.Sprint(changed)+": "+desc)
+				}
+				comparePortfolios(out, "third party", pv, e.portfolioOf(cctx, victim, spenders), nil, 0, false, desc)
+			}
+		}
+	}
+}
+
 func firstMatch(entries []string, addr common.Address, mid string) int {
 	for i := range entries {
 		if shouldBlock(entries[i:i+1], addr, mid) {
@@ -1140,6 +1198,7 @@ func TestC10(t *testing.T) {
 	only := os.Getenv("VERIF_C10_PHASE") // debugging aid: "dispatch" or "history" runs one phase only
 	if only != "history" {
 		phaseDispatch(t, e, rng, out)
+		phaseMalformed(t, e, rng, out)
 	}
 	if only != "dispatch" {
 		phaseHistory(t, e, rng, out)
